@@ -65,33 +65,37 @@ def r08_1(ctx):
     r = Runner(idx)
     fi, outs = r.run("cast_arg_list", lambda: [[r.pure("a", vt=vt("t", True, 32))], [vt("p", True, 32), vt("q", True, 32)]], args_list=True)
     ctx.check("cast_arg_list count mismatch raises", all(o.kind == "raise" for o in outs), "raises", str([outcome_text(o)[:30] for o in outs]), fn_where(idx, fi))
-    # sub_routine callback: arguments converted against the routine's own parameter types, in order
-    r = Runner(idx)
-    seen = {}
-    def cs(interp, args, kwargs):
-        seen["call"] = (args, kwargs)
-        return args[1]
-    r.summarised = r.summarised | {"cast_sub_routine_args"}
-    r.s_cast_sub_routine_args = cs
-    sr = {}
-    def items():
-        return ["clz32", r.pure("items[1]", vt=vt("t1", True, 32)), r.pure("items[2]", vt=vt("t2", True, 32))]
-    def over():
-        s = AObj("SubRoutine", {}, label="routine", opaque=True)
-        r.stubs[("routine", "get_parameter_value_types")] = "PARAM_TYPES"
-        r.stubs[("routine", "get_name")] = "clz32"
-        return {"sub_routines": {"clz32": s}}
-    fi, outs = r.run("sub_routine", items, self_over=over)
-    good = [o for o in outs if o.kind != "raise"]
-    ctx.need(good and "call" in seen, "sub_routine callback: argument conversion call not observed")
-    a, k = seen["call"]
-    ctx.check("sub_routine converts items[1:] against the routine's parameter types", [lab(x) for x in a[1]] == ["items[1]", "items[2]"] and (a[2] if len(a) > 2 else k.get("predefined_types")) == "PARAM_TYPES",
-              "cast_sub_routine_args(name, items[1:], routine.get_parameter_value_types())", f"args={[lab(x) for x in a[1]]}, types={a[2] if len(a) > 2 else k}", fn_where(idx, fi))
-    for o in good:
-        v = o.value
-        h = v.fields.get("hybrid") if isinstance(v, AObj) else None
-        ok = isinstance(h, AObj) and h.cls == "SubRoutineCall" and lab(ctor(h, "sub_routine")) == "routine" and [lab(x) for x in ctor(h, "args")] == ["items[1]", "items[2]"]
-        ctx.check("sub_routine builds SubRoutineCall(routine, converted args) and resolves it as a hybrid", ok, "Hyb(SubRoutineCall(routine, args))", lab(v)[:80], fn_where(idx, fi))
+    # sub_routine callback: arguments converted against the routine's own parameter types, in order - for every registered routine, whatever it is called
+    for rname in ("clz32", "fatal_mark", "g_assert_sat", "fatality", "MEM_STORE0_b", "x"):
+        r = Runner(idx)
+        seen = {}
+        def cs(interp, args, kwargs):
+            seen["call"] = (args, kwargs)
+            return args[1]
+        r.summarised = r.summarised | {"cast_sub_routine_args"}
+        r.s_cast_sub_routine_args = cs
+        def items(rname=rname):
+            return [rname, r.pure("items[1]", vt=vt("t1", True, 32)), r.pure("items[2]", vt=vt("t2", True, 32))]
+        def over(rname=rname):
+            s = AObj("SubRoutine", {}, label="routine", opaque=True)
+            r.stubs[("routine", "get_parameter_value_types")] = "PARAM_TYPES"
+            r.stubs[("routine", "get_name")] = rname
+            return {"sub_routines": {rname: s}}
+        fi, outs = r.run("sub_routine", items, self_over=over)
+        good = [o for o in outs if o.kind != "raise"]
+        nt = rname != "clz32"
+        ctx.check(f"sub_routine callback, registered routine {rname}: the call is compiled (argument conversion observed)", bool(good) and "call" in seen, "cast_sub_routine_args called, a call node built",
+                  f"outcomes={[lab(o.value)[:40] if o.kind != 'raise' else 'RAISE' for o in outs]}, conversion={'seen' if 'call' in seen else 'not seen'}", fn_where(idx, fi), nontrivial=nt)
+        if not (good and "call" in seen):
+            continue
+        a, k = seen["call"]
+        ctx.check(f"sub_routine[{rname}] converts items[1:] against the routine's parameter types", [lab(x) for x in a[1]] == ["items[1]", "items[2]"] and (a[2] if len(a) > 2 else k.get("predefined_types")) == "PARAM_TYPES",
+                  "cast_sub_routine_args(name, items[1:], routine.get_parameter_value_types())", f"args={[lab(x) for x in a[1]]}, types={a[2] if len(a) > 2 else k}", fn_where(idx, fi), nontrivial=nt)
+        for o in good:
+            v = o.value
+            h = v.fields.get("hybrid") if isinstance(v, AObj) else None
+            ok = isinstance(h, AObj) and h.cls == "SubRoutineCall" and lab(ctor(h, "sub_routine")) == "routine" and [lab(x) for x in ctor(h, "args")] == ["items[1]", "items[2]"]
+            ctx.check(f"sub_routine[{rname}] builds SubRoutineCall(routine, converted args) and resolves it as a hybrid", ok, "Hyb(SubRoutineCall(routine, args))", lab(v)[:80], fn_where(idx, fi), nontrivial=nt)
     fp = idx.func("SubRoutine.get_parameter_value_types")
     rets = [U(p.value) for p in paths_of(fp.node) if p.outcome == "return"]
     ctx.check("parameter types are read off the routine's parameters in order", rets == ["[p.value_type for p in self.ops]"], "[p.value_type for p in self.ops]", str(rets), fn_where(idx, fp))
@@ -221,6 +225,25 @@ def r08_4(ctx):
         outs = Interp(idx).explore(lambda i: i.call_function(fd, [EnumV("SubRoutineInitType", "DECL", et["DECL"])], self_obj=mk2()))
         d_ = {normalise(outcome_text(o)).split("(")[0].split("*")[-1] for o in outs}
         ctx.check(f"routine {rname}: the function that is called is the function that is declared", len(c_) == 1 and c_ == d_, "one C name at both sites", f"called {sorted(c_)}, declared {sorted(d_)}", fn_where(idx, fd), nontrivial=(rname != "clz32"))
+    # several parameters: the declaration lists them in the order the call passes its arguments (the routine's own order), whatever they are called
+    for names in (("t", "bundle"), ("bundle", "t"), ("b", "a", "c"), ("hi", "bundle", "x")):
+        def mk3(names=names):
+            sr = mk_sr()
+            sr.fields["ops"] = [AObj("Parameter", {"value_type": vt("pt_" + n, False, 32), "name": n, "isa_name": None}, label="param_" + n) for n in names]
+            return sr
+        outs = Interp(idx).explore(lambda i: i.call_function(fd, [EnumV("SubRoutineInitType", "DECL", et["DECL"])], self_obj=mk3()))
+        got = set()
+        for o in outs:
+            t = normalise(outcome_text(o))
+            inner = t[t.find("(") + 1:t.rfind(")")] if "(" in t else t
+            got.add(tuple(re.split(r"[\s*]+", x.strip())[-1] for x in inner.split(",")))
+        ctx.check(f"declared parameter order for parameters {names}", got == {tuple(names)}, str(tuple(names)), str(sorted(got)), fn_where(idx, fd))
+        outs = Interp(idx).explore(lambda i: i.call_function(fw, [], self_obj=AObj("SubRoutineCall", {"sub_routine": mk3(), "args": [mk_pure("arg_" + n) for n in names]}, label="self")))
+        gotc = set()
+        for o in outs:
+            t = normalise(outcome_text(o))
+            gotc.add(tuple(re.findall(r"arg_(\w+)", t)))
+        ctx.check(f"call argument order for parameters {names}", gotc == {tuple(names)}, str(tuple(names)), str(sorted(gotc)), fn_where(idx, fw))
     outs = Interp(idx).explore(lambda i: i.call_function(fw, [], self_obj=AObj("SubRoutineCall", {"sub_routine": mk_sr(), "args": [mk_pure("a"), mk_pure("b")]}, label="self")))
     ctx.check("call with a wrong number of arguments raises", all(o.kind == "raise" for o in outs), "raises", str([outcome_text(o)[:30] for o in outs]), fn_where(idx, fw))
 
